@@ -25,6 +25,9 @@ func (r *SignatureProposalParticipantsListRequest) Validate() error {
 
 	uniqueUsernames := make(map[string]bool)
 	for _, participant := range r.Participants {
+		if participant == nil {
+			return errors.New("{Participants} cannot contain an empty entry")
+		}
 		if _, ok := uniqueUsernames[participant.Username]; ok {
 			return errors.New("{Username} must be unique")
 		}
